@@ -108,8 +108,10 @@ func main() {
 		fatal("packages contain errors")
 	}
 	prog, spkgs := ssautil.AllPackages(pkgs, ssa.InstantiateGenerics)
-	prog.Build()
 	hp := spkgs[0]
+	if hp != nil {
+		hp.Build()
+	}
 	if hp == nil {
 		fatal("no SSA package for %s", *pkgPat)
 	}
